@@ -53,7 +53,7 @@ def run(args):
         ("one content byte changed", sub_once(r'"d":\[(\d+),', lambda m: '"d":[%d,' % (int(m.group(1)) + 1)), "C01"),
         ("one length changed", sub_once(r'"len":(\d+),"cap":(\d+),"u":(\w+),"d":\[(\d+)', lambda m: '"len":%d,"cap":%s,"u":%s,"d":[%s' % (int(m.group(1)) + 1, m.group(2), m.group(3), m.group(4))), "C01"),
         ("one free size changed", sub_once(r'"e":"free","id":(\d+),"size":(\d+)', lambda m: '"e":"free","id":%s,"size":%d' % (m.group(1), int(m.group(2)) + 1)), "C02"),
-        ("one free event removed", sub_once(r'\{"e":"free","id":\d+,"size":\d+,"align":1,[^}]*\},?', ""), "C03"),
+        ("one free event removed", sub_once(r'"mem":\[\{"e":"free","id":\d+,"size":\d+,"align":1,[^}]*\}\]', '"mem":[]'), "C03"),
         ("one is_unique answer flipped", sub_once(r'"u":true', '"u":false'), "C08"),
         ("one panic turned into ok", sub_once(r'"k":"panic"', '"k":"ok"'), "C13"),
         ("one address offset changed", sub_once(r'"ty":"B","a":(\d+),"off":(\d+)', lambda m: '"ty":"B","a":%s,"off":%d' % (m.group(1), int(m.group(2)) + 1)), "C07"),
